@@ -168,36 +168,29 @@ namespace bloch::runtime {
         }
         if (q >= 0 && q < static_cast<int>(m_measured.size()))
             m_measured[q] = false;
-        // Put qubit q into |0>.
-        // If the state already has amplitude in the |...0> subspace, zero the |...1> subspace
-        // and renormalize. If all amplitude is in |...1>, deterministically move it into
-        // the |...0> subspace (equivalent to an X on a measured |1>), avoiding NaNs.
+        // Put qubit q into |0> without disturbing the other qubits: find the qubit in |0> or
+        // |1> with its Born probabilities (as a measurement would), collapse onto that branch
+        // and, if it was |1>, flip it. Merely projecting onto |0> and renormalising would
+        // post-select the partners of an entangled qubit.
         size_t bit = size_t{1} << q;
         double norm0 = 0.0;
+        double norm1 = 0.0;
         for (size_t i = 0; i < m_state.size(); ++i) {
-            if (!(i & bit))
+            if (i & bit)
+                norm1 += std::norm(m_state[i]);
+            else
                 norm0 += std::norm(m_state[i]);
         }
-
-        if (norm0 == 0.0) {
-            // All amplitude is in the |...1> subspace: swap it into |...0>.
-            for (size_t i = 0; i < m_state.size(); ++i) {
-                if (i & bit) {
-                    size_t j = i ^ bit;  // flip target bit to 0
-                    m_state[j] = m_state[i];
-                    m_state[i] = 0.0;
-                }
-            }
-        } else {
-            // Zero |...1> and renormalize |...0>
-            double inv = 1.0 / std::sqrt(norm0);
-            for (size_t i = 0; i < m_state.size(); ++i) {
-                if (i & bit) {
-                    m_state[i] = 0.0;
-                } else {
-                    m_state[i] *= inv;
-                }
-            }
+        std::uniform_real_distribution<double> dist(0.0, 1.0);
+        double r = dist(rng) * (norm0 + norm1);
+        bool wasOne = norm0 == 0.0 || (norm1 > 0.0 && r < norm1);
+        double inv = 1.0 / std::sqrt(wasOne ? norm1 : norm0);
+        for (size_t i = 0; i < m_state.size(); ++i) {
+            if (i & bit)
+                continue;
+            size_t j = i | bit;
+            m_state[i] = (wasOne ? m_state[j] : m_state[i]) * inv;
+            m_state[j] = 0.0;
         }
 
         if (m_logOps)
